@@ -23,7 +23,7 @@ ASSUMPTIONS = ["decimal grids (class B): Brownian increments over intervals whos
                "grid times (unsnapped: 1e-6)"]
 REQUIRED_COUNTERS = ["class_A", "class_B", "multi_output_cases", "noise_diagonal", "noise_scalar", "noise_additive",
                      "noise_general", "loss_subset_not_last", "loss_subset_one_interior", "negative_times",
-                     "chunked_with_extra_state", "far_time_axis"]
+                     "chunked_with_extra_state", "far_time_axis", "renamed_methods_cases"]
 THRESHOLDS = {"A": 1e-9, "B_snapped": 1e-9, "B_unsnapped": 1e-6, "C": 1e-9}
 
 
@@ -100,7 +100,17 @@ def run_case(case):
     cut = rng.randrange(1, len(tsl) - 1) if chunked else None
     we = [torch.randn(s_, generator=gen) for s_ in ((B, d), (B, d) if nt == "diagonal" else (B, d, sde.m), (B, d))]
 
+    # a third of the cases hands drift and diffusion over under other names (names=...): the module's parameters are
+    # still the default adjoint parameters
+    renamed = rng.random() < 0.33
+    cnt["renamed_methods_cases"] = int(renamed)
+    sde_used = zoo.Renamed(sde) if renamed else sde
+    nkw = {"names": dict(zoo.Renamed.NAMES)} if renamed else {}
+    ctx += f" renamed={renamed} chunked={chunked}"
+
     def solve(fn, s, y, bm, **kw):
+        kw = dict(kw, **nkw)
+        s = sde_used
         if not chunked:
             return fn(s, y, ts, bm=bm, method="reversible_heun", dt=dt, **kw)
         ys1, ex = fn(s, y, ts[:cut + 1], bm=bm, method="reversible_heun", dt=dt, extra=True, **kw)
